@@ -14,7 +14,7 @@ var zzRootMenu = []string{
 }
 
 // zzRootMenuCore: indexes of the items that interact (merging, conditions, fragments, abstract types)
-var zzRootMenuCore = []int{0, 2, 5, 7, 8, 9, 10, 14, 15, 17, 22, 26}
+var zzRootMenuCore = []int{5, 7, 10, 14, 16, 27}
 
 const zzFragF = " fragment F on Query{a o{y} ...G}"
 const zzFragG = " fragment G on Query{b o{x @include(if:$w)}}"
